@@ -21,6 +21,7 @@ import re
 import shutil
 import sys
 import tempfile
+import threading
 import time
 import wave
 from concurrent.futures import ProcessPoolExecutor
@@ -65,10 +66,18 @@ def scenario(sc, tmproot, chooser_factory):
     data, nsamp = synth(pat, B, sc.get("tail", B), sw, ch, quiet_channels=(1,) if energy else ())
     bps = sw * ch
     blocks = []
+    nreads = [0]
+    if sc.get("crash_at") is not None:
+        threading.excepthook = lambda a: None          # the injected exception ends the tokenizer thread: no traceback on stderr
+        sys.unraisablehook = lambda *a: None           # nor from finalizers of abandoned (hung) workers
 
     class Src(aio.BufferAudioSource):
         def read(self_, size):
             sched.SCHED.point("src_read")
+            nreads[0] += 1
+            if sc.get("crash_at") is not None and nreads[0] > sc["crash_at"]:
+                sched.SCHED.note(pt="src_crash")
+                raise RuntimeError("device error (injected)")
             d = super().read(size)
             if d is not None:
                 blocks.append(d)
@@ -353,6 +362,7 @@ def scenario(sc, tmproot, chooser_factory):
     stopped = any(e["th"] == "main" and e["pt"] == "put" and e.get("q") == "tok" for e in S.events)
     obs_rec = {"p": p, "stream": stream, "judged": judged[0], "dets": dets, "processed": processed, "status": status, "alive": alive,
                "stopped": stopped, "file": file_ids, "fvalid": bool(fvalid), "joined_ok": joined_ok, "regfiles_ok": regfiles_ok,
+               "crashed": any(e.get("pt") == "src_crash" for e in S.events),
                "printed_ok": printed_ok, "haslog": logger is not None, "log": log,
                "loggers": [i + 1 for i, k in enumerate(kinds) if k in ("regsave", "player", "command")] if logger is not None else []}
     impl = {"p": p, "ev": S.events, "kinds": kinds}
@@ -897,6 +907,8 @@ def check(prop, tier, replay=None):
         "liveness is checked under weak fairness of every thread's non-timeout steps; main's optional stop request is not fair",
     ]
     # ---- leg M
+    if prop == "X06":
+        return check_crash(V, wd, tmproot, tier, rng)
     if prop == "X03":
         for pset, mf in ([("PSetObs2", 3), ("PSetQuick", 3)] if tier == "quick" else [("PSetObs2", 4), ("PSetQuick", 4), ("PSetJoiner", 4)]):
             cfg = (f"CONSTANTS MaxFrames = {mf} PSet <- {pset} FixD1 = TRUE FixD2 = TRUE\nSPECIFICATION LSpec\nINVARIANT X03Safe\nINVARIANT C12Safe\n"
@@ -1009,6 +1021,43 @@ def check(prop, tier, replay=None):
              "(monitors) and WorkersTrace (step conformance). distinct = canonical (configuration, input, event sequence); non-trivial = at least one detection")
 
 
+def check_crash(V, wd, tmproot, tier, rng):
+    """X06: an observation, not a listed property -- the source raises mid-stream.  Leg M: WorkersCrash (hang without stop, rescue by
+    stop_all, prefix still right); leg T: controlled runs of the real threads with the exception injected at the k-th read; a run the
+    model does not describe is reported as a DIVERGENCE (the model is a description of the code here, not a requirement on it)."""
+    for pset, mf in ([("PSetQuick", 3)] if tier == "quick" else [("PSetQuick", 4), ("PSetObs2", 4), ("PSetJoiner", 3)]):
+        cfg = (f"CONSTANTS MaxFrames = {mf} PSet <- {pset} FixD1 = TRUE FixD2 = TRUE\nSPECIFICATION CSpec\nINVARIANT HangsWithoutStop\n"
+               "INVARIANT PrefixStillOK\nPROPERTY StopRescues\nCHECK_DEADLOCK FALSE\n")
+        res = tlc.run("WorkersCrash", cfg, wd, name=f"crash_{pset}", timeout=3400, mem="16g")
+        tlc.require_ok(res, f"leg M {pset}")
+        V.add_model(f"M:crash:{pset}", res)
+        if res["violated"] or not res["ok"]:
+            raise MachineryError(f"leg M {pset}: {res['violated']} / {res['error']}\n" + tlc.counterexample(res, 80))
+    V.cov["exhaustive"] = True
+    t0 = time.time()
+    scs = []
+    for _ in range(120 if tier == "quick" else 1500):
+        sc = rand_scenario(rng, "quick", "C12")
+        sc["obs"] = [k for k in sc["obs"] if k != "command"] or ["rec"]
+        sc["crash_at"] = rng.choice([0, 1, 2, rng.randint(0, len(sc["pat"]) // sc["B"] + 1)])
+        sc["stop_after"] = rng.choice([None, None, rng.randint(0, 80)])
+        sc["max_steps"] = 1500
+        sc["validator"] = "custom"
+        scs.append(sc)
+    runs = run_scenarios(scs, tmproot)
+    report_runs(V, "X06", runs, wd, "T")
+    hung = sum(1 for r in runs if r[2]["crashed"] and r[2]["status"] != "done")
+    V.leg("T", runs=len(runs), crashed=sum(1 for r in runs if r[2]["crashed"]), hung_until_budget=hung, statuses=count_status(runs), wall_s=round(time.time() - t0, 2))
+    shutil.rmtree(tmproot, ignore_errors=True)
+    rc = V.finish(rule="X06 (observation): WorkersCrash model-checked; controlled runs with an injected source exception compared with it; mismatches are divergences")
+    from .common import EVIDENCE, OUT
+    try:
+        shutil.move(os.path.join(EVIDENCE, "X06.json"), os.path.join(OUT, "X06.json"))
+    except OSError:
+        pass
+    return rc
+
+
 def count_status(runs):
     c = {}
     for r in runs:
@@ -1019,7 +1068,7 @@ def count_status(runs):
 OBS_CFG = "SPECIFICATION Spec\nCONSTRAINT Mon\nPOSTCONDITION Post\nCHECK_DEADLOCK FALSE\n"
 IMPL_CFG = ("CONSTANTS MaxFrames = 1000000 PSet = {} FixD1 = TRUE FixD2 = TRUE\nSPECIFICATION TSpec\nCONSTRAINT Progress\n"
             "POSTCONDITION Post\nCHECK_DEADLOCK FALSE\n")
-BIT = {"C12": 1, "C13": 2, "C14": 4, "X03": 8}
+BIT = {"C12": 1, "C13": 2, "C14": 4, "X03": 8, "X06": 16}
 
 
 def report_runs(V, prop, runs, wd, leg):
@@ -1033,13 +1082,14 @@ def report_runs(V, prop, runs, wd, leg):
         return
     obs = [r[2] for r in runs]
     for ob_ in obs:
+        ob_.setdefault("crashed", False)
         ob_.setdefault("haslog", False)
         ob_.setdefault("log", [])
         ob_.setdefault("loggers", [])
     rows, st = judge("WorkersObs", OBS_CFG, obs, wd, "wo_" + leg, weight=lambda x: len(x["stream"]) + 1)
     V.cov["states"] += st
     # step conformance only for runs whose observers are plain workers (the joiner's drain phase is a different thread shape)
-    idx = [i for i, r in enumerate(runs) if "cli" not in r[1]["kinds"] and r[2]["status"] == "done" and len(r[1]["ev"]) < 20000]
+    idx = [i for i, r in enumerate(runs) if "cli" not in r[1]["kinds"] and r[2]["status"] == "done" and len(r[1]["ev"]) < 20000 and not r[2].get("crashed")]
     irows, ist = judge("WorkersTrace", IMPL_CFG, [runs[i][1] for i in idx], wd, "wt_" + leg, strip=lambda x: {"p": x["p"], "ev": x["ev"]})
     V.cov["states"] += ist
     accepted = {i: (r[2] == r[3]) for i, r in zip(idx, irows)}
@@ -1047,6 +1097,11 @@ def report_runs(V, prop, runs, wd, leg):
         code = row[2] - 1
         if code < 0:
             raise MachineryError("WorkersObs did not judge a run")
+        if prop == "X06":
+            if code & BIT[prop]:
+                V.divergence({"crash_model": "WorkersCrash does not describe this run", "sc": {k: v for k, v in sc.items() if k not in ("seed", "schedule")},
+                              "status": ob["status"], "alive": ob["alive"], "stopped": ob["stopped"], "processed": ob["processed"], "dets": ob["dets"]})
+            continue
         if code & BIT[prop]:
             sched_key = [(e["th"], e["pt"]) for e in impl["ev"]]
             V.violation({"sc": {k: v for k, v in sc.items() if k not in ("seed", "schedule")}, "schedule": key_sched(sched_key)},
